@@ -65,10 +65,8 @@ impl PipeCtl {
     pub fn release(&self, n: usize) -> usize {
         let mut s = self.0.borrow_mut();
         let k = n.min(s.held.len());
-        for _ in 0..k {
-            let b = s.held.pop_front().unwrap();
-            s.ready.push_back(b);
-        }
+        let s = &mut *s;
+        s.ready.extend(s.held.drain(..k));
         s.total_released += k;
         if k > 0 {
             if let Some(w) = s.reader_waker.take() {
@@ -190,10 +188,11 @@ impl AsyncRead for PipeReader {
         }
         if !s.ready.is_empty() {
             let n = s.max_chunk.min(s.ready.len()).min(buf.remaining());
-            for _ in 0..n {
-                let b = s.ready.pop_front().unwrap();
-                buf.put_slice(&[b]);
-            }
+            let (a, b) = s.ready.as_slices();
+            let na = n.min(a.len());
+            buf.put_slice(&a[..na]);
+            buf.put_slice(&b[..n - na]);
+            s.ready.drain(..n);
             s.reads += 1;
             return Poll::Ready(Ok(()));
         }
